@@ -24,6 +24,8 @@ section B; exemplar: c09_kernel.py).  One Gallina `Definition` per *kernel expre
       k_var_<x>_none / k_var_<x>_scalar    numpy.full(self.gpmod.ntrait, 0.0 | value, float)
   pybrops/breed/prot/pt/TruePhenotyping.py phenotype
       k_tp_taxa_* / k_tp_trait_*   as k_ge_*;   k_tp_has_grp_col   `if gvmat.taxa_grp is not None` (the group column exists only then)
+      k_tp_taxa_copied   labels_dict["taxa"] = <generated> if gvmat.taxa is None else numpy.array(gvmat.taxa): is the taxa column a fresh
+                         array (true) or the population's own array (false)?  Proofs/C14_Kernel.v needs `true` for the isolation theorem
   pybrops/breed/prot/bv/MeanPhenotypicBreedingValue.py estimate
       k_by_grp           if self.taxa_grp_col is not None and gtobj is None: by.append(self.taxa_grp_col)
       k_dropna, k_as_index, k_agg      keywords of groupby / the aggregation function
@@ -160,16 +162,31 @@ def _list_expr(e, env):
 
 
 # --------------------------------------------------------------------------------------------- generated label names
-def _label_kernels(defs, tag, where, fn, width_var, label_target_expr, count_attr, none_attr, prefix_expected_cls=None):
+def _label_kernels(defs, tag, where, fn, width_var, label_target_expr, count_attr, none_attr, prefix_expected_cls=None, copy_kernel=False):
     """<width_var> = math.ceil(math.log10(<count_attr>)) + 1
-       <labels>   = [numpy.array(]["P" + str(i + 1).zfill(<width_var>) for i in range(<count_attr>)][, dtype=object)] if <none_attr> is None else <none_attr>"""
+       <labels>   = [numpy.array(]["P" + str(i + 1).zfill(<width_var>) for i in range(<count_attr>)][, dtype=object)] if <none_attr> is None else <none_attr>
+       with copy_kernel the else branch may also be `numpy.array(<none_attr>)` (one positional argument, no keyword: numpy.array copies by
+       default; `copy=False`, numpy.asarray, a view or a slice are refused) and a definition k_<tag>_copied : bool says which of the two it is"""
     Zc = lambda env: P.Ctx("Z", env)
     e = P.the_assignment(fn, width_var)
     clog = "math.ceil(math.log10(%s))" % count_attr
     defs.append(P.definition("k_%s_width" % tag, [("clog", "Z")], "Z", P.to_coq(bind(e, {clog: "clog"}), Zc({"clog": "clog"})),
                              "%s: %s = %s   (clog = ceil(log10(%s)))" % (where, width_var, _src(e), count_attr)))
     x = label_target_expr
-    if not (isinstance(x, ast.IfExp) and ast.unparse(x.test) == "%s is None" % none_attr and ast.unparse(x.orelse) == none_attr):
+    if not (isinstance(x, ast.IfExp) and ast.unparse(x.test) == "%s is None" % none_attr):
+        raise U("%s: labels are no longer `<generated> if %s is None else ...`: %s" % (where, none_attr, _src(x)))
+    if copy_kernel:
+        o = x.orelse
+        if ast.unparse(o) == none_attr:
+            copied = "false"
+        elif (isinstance(o, ast.Call) and ast.unparse(o.func) == "numpy.array" and len(o.args) == 1 and not o.keywords
+              and ast.unparse(o.args[0]) == none_attr):
+            copied = "true"
+        else:
+            raise U("%s: explicit labels are neither `%s` nor `numpy.array(%s)`: %s" % (where, none_attr, none_attr, _src(o)))
+        defs.append(P.definition("k_%s_copied" % tag, [], "bool", copied,
+                                 "%s: ... if %s is None else %s   (true: a fresh array; false: the population's own array)" % (where, none_attr, _src(o))))
+    elif ast.unparse(x.orelse) != none_attr:
         raise U("%s: labels are no longer `<generated> if %s is None else %s`: %s" % (where, none_attr, none_attr, _src(x)))
     g = x.body
     if isinstance(g, ast.Call) and ast.unparse(g.func) == "numpy.array":
@@ -381,7 +398,7 @@ def _true_phenotype(repo, defs):
     defs.append(P.definition("k_tp_has_grp_col", [("grp_is_none", "bool")], "bool",
                              P.to_coq(bind(s.test, {"gvmat.taxa_grp is not None": "has_grp"}), P.Ctx("Z", {}, bool_env={"has_grp": "(negb grp_is_none)"}), "bool"),
                              "TruePhenotyping.phenotype: if %s: labels_dict['taxa_grp'] = gvmat.taxa_grp" % _src(s.test)))
-    _label_kernels(defs, "tp_taxa", "TruePhenotyping.phenotype", fn, "taxazfill", P.the_assignment(fn, "labels_dict['taxa']"), "gvmat.ntaxa", "gvmat.taxa")
+    _label_kernels(defs, "tp_taxa", "TruePhenotyping.phenotype", fn, "taxazfill", P.the_assignment(fn, "labels_dict['taxa']"), "gvmat.ntaxa", "gvmat.taxa", copy_kernel=True)
     _label_kernels(defs, "tp_trait", "TruePhenotyping.phenotype", fn, "traitzfill", P.the_assignment(fn, "cols"), "gvmat.ntrait", "gvmat.trait")
 
 
